@@ -9,3 +9,45 @@ package execenv
 //@ func Out.Printf
 //@ func Out.Print
 //@   modifies nothing
+
+// ---- the repository lock across a command (C19) -------------------------------------------------------------
+// cache.repoLocked: this process holds the repository's lock file. A command's pre-run takes it (LoadBackend),
+// its post-run gives it back (CloseBackend -> RepoCache.Close). cobra does not run the command - and therefore
+// not CloseBackend either - when the pre-run fails, so a pre-run that fails after the lock was taken must give
+// it back itself, or the lock file stays behind with the pid of a process that is gone (and blocks the
+// repository for as long as that pid happens to be reused by something alive).
+//@ ghost var lastLoadOK bool
+
+// making the pre-run closures touches nothing
+//@ func LoadRepo
+//@ func LoadBackend
+//@ func LoadBackend$1$1
+//@   modifies nothing
+
+//@ func CacheBuildProgressBar
+//@   trusted
+//@   modifies cache.repoLocked
+//@   ensures [opened] result == nil ==> cache.repoLocked
+
+// opening the git repository has nothing to do with the cache lock
+//@ func LoadRepo$1
+//@   trusted
+//@   modifies * except cache.closeCalls, cache.lastCloseOK, cache.repoLocked
+
+//@ func LoadBackend$1
+//@   props C19
+//@   requires env != nil
+//@   modifies * except cache.closeCalls, cache.lastCloseOK
+//@   ensures [locked-on-success] result == nil ==> cache.repoLocked && env.Backend != nil
+//@   defines [outcome] lastLoadOK == (result == nil)
+
+//@ func LoadBackendEnsureUser$1
+//@   props C19
+//@   requires env != nil
+//@   ensures [failure-after-open-releases-lock] result != nil && lastLoadOK ==> cache.closeCalls == old(cache.closeCalls) + 1 && (cache.lastCloseOK ==> !cache.repoLocked)
+//@   ensures [locked-on-success] result == nil ==> cache.repoLocked
+
+//@ func CloseBackend$1
+//@   props C19
+//@   requires env != nil
+//@   ensures [lock-released] env.Backend == nil
